@@ -26,7 +26,7 @@ def policies(rr, sc, cell):
 def run(ctx):
     binary = build.xcp()
     quick = ctx.tier == "quick"
-    maxl = 4 if quick else 6
+    maxl = 5 if quick else 6
     r = dataplane.model_check(maxl)
     ctx.tlc("XcpData MaxL=%d: every kernel copy/read returns ANY count 1..requested; user-space fallback; clone/extent answers free" % maxl, r)
     if r.violated:
